@@ -11,7 +11,7 @@ from props.C06 import describe, rules
 
 REQUIRED_THEOREMS = ['Usid.C02.reject_atomic', 'Usid.C02.accept_valid', 'Usid.C02.accept_faithful',
                      'Usid.C02.malformed_reuse_rejected']
-RULE = ('[also: dimension values that are descending, shuffled or not distinct] [also: a pair reused from another file whose name is already taken in the target group] [also: an ancillary pair offered for reuse whose Values matrix has another number of dimensions than its Indices matrix] [also: verbose=True, lazy data in several chunks, main_dset_attrs, dimension values as float64 / float32 arrays; stored quantity / units observed] [also: refusals by HDF5 itself after the validation passed - an unknown compression filter, chunks larger than the dataset] [optional dtype= and compression= keyword arguments included; every eleventh case lazy data with an explicit element type] random calls of write_main_dataset: data as numpy / dask / empty shape + dtype, dimension lists whose product '
+RULE = ('[also: a reused ancillary pair without labels / units] [also: dimension values that are descending, shuffled or not distinct] [also: a pair reused from another file whose name is already taken in the target group] [also: an ancillary pair offered for reuse whose Values matrix has another number of dimensions than its Indices matrix] [also: verbose=True, lazy data in several chunks, main_dset_attrs, dimension values as float64 / float32 arrays; stored quantity / units observed] [also: refusals by HDF5 itself after the validation passed - an unknown compression filter, chunks larger than the dataset] [optional dtype= and compression= keyword arguments included; every eleventh case lazy data with an explicit element type] random calls of write_main_dataset: data as numpy / dask / empty shape + dtype, dimension lists whose product '
         'equals or differs from the data shape, slow_to_fast in {F,T}, custom prefixes (with "-"), reuse of ancillaries '
         'from the same or another file, wrong argument types, and prior group contents with clashing names of every '
         'kind (Position_*, Spectroscopic_*, the main name); after a rejection the corrected call is retried in the '
@@ -24,7 +24,10 @@ ERRORS = ['none', 'none', 'none', 'none', 'pos_size', 'spec_size', 'pos_type', '
           'bad_compression', 'bad_chunks',
           # an ancillary pair offered for reuse whose Values matrix describes another number of dimensions than its
           # Indices matrix (right length along the axis of the main dataset)
-          'reuse_pair', 'reuse_pair']
+          'reuse_pair', 'reuse_pair',
+          # ... or which lacks the description (labels / units) every ancillary dataset must carry: the shapes agree, so
+          # the refusal can only come once the finished dataset is examined
+          'reuse_undescribed']
 
 
 def _dims(rng, side, prefix):
@@ -65,6 +68,13 @@ def generate(seed, tier):
         for key in ('pos', 'spec'):
             if cases[-1]['reuse_' + key] == 'other' and rq.random() < 0.3:
                 cases[-1]['prior'] = cases[-1]['prior'] + ['R%s_%s' % (key, rq.choice(['Indices', 'Values']))]
+        if err == 'reuse_undescribed':
+            rp = derived_rng(seed, 'C02u', i)
+            side = rp.choice(['pos', 'spec'])
+            cases[-1]['reuse_bad_side'] = side
+            cases[-1]['reuse_bad_how'] = rp.choice(['labels', 'units', 'both', 'values_labels'])
+            if not cases[-1]['reuse_' + side]:
+                cases[-1]['reuse_' + side] = rp.choice(['same', 'other'])
         if err == 'reuse_pair':
             rp = derived_rng(seed, 'C02r', i)
             side = rp.choice(['pos', 'spec'])
@@ -106,7 +116,8 @@ def _args(inp, err):
          'pos_bad_type': err == 'pos_type', 'spec_bad_type': err == 'spec_type', 'quantity_ok': err != 'quantity_type',
          'data': inp['data'], 'data_rank_bad': err == 'data_rank', 'empty_no_dtype': err == 'empty_no_dtype',
          'data_bad_type': err == 'data_type', 'bad_compression': err == 'bad_compression', 'bad_chunks': err == 'bad_chunks',
-         'reuse_pair_bad': inp.get('reuse_bad_side') if err == 'reuse_pair' else None}
+         'reuse_pair_bad': inp.get('reuse_bad_side') if err == 'reuse_pair' else None,
+         'reuse_undescribed': inp.get('reuse_bad_side') if err == 'reuse_undescribed' else None}
     if err == 'pos_size':
         a['pos'] = copy.deepcopy(a['pos'])
         a['pos'][0]['values'] = a['pos'][0]['values'] + [99]
@@ -145,6 +156,14 @@ def _call(inp, grp, other, a, data_arr):
                 v = tgt.create_dataset(base + 'Values', data=mat)
                 for k_, v_ in attrs.items():
                     v.attrs[k_] = v_
+            if a.get('reuse_undescribed') == side:
+                how = inp.get('reuse_bad_how')
+                victims = [tgt[base + 'Values']] if how == 'values_labels' else [tgt[base + 'Indices'], tgt[base + 'Values']]
+                for v in victims:
+                    for att in {'labels': ['labels'], 'units': ['units'], 'both': ['labels', 'units'],
+                                'values_labels': ['labels']}[how]:
+                        if att in v.attrs:
+                            del v.attrs[att]
             kw['h5_%s_inds' % side] = tgt[base + 'Indices']
             kw['h5_%s_vals' % side] = tgt[base + 'Values']
             if side == 'pos':
@@ -381,7 +400,7 @@ def _model_req(inp, err, members):
     a = _args(inp, err)
 
     def side(key, dims, bad):
-        if a.get('reuse_pair_bad') == key:
+        if a.get('reuse_pair_bad') == key or a.get('reuse_undescribed') == key:
             return {'k': 'reuse_bad', 'base': 'R%s_' % key, 'same': inp['reuse_' + key] == 'same'}
         if inp['reuse_' + key]:
             return {'k': 'reuse', 'base': 'R%s_' % key, 'dims': dims, 'same': inp['reuse_' + key] == 'same'}
